@@ -10,7 +10,10 @@ RegisterStack pools).  Two independent oracles then judge every successful alloc
     r is live after the op; aliased names (s1/x9, rbx/ebx/bx/bl, xmm/ymm/zmm) are ONE register; values the
     allocator puts in `zero` must be the constant 0; tied in/out pairs and loop-carried tuples must share one
     register; pre-allocated registers unchanged; only the offered pool (plus spill registers when allowed) used;
-    the IR must be structurally unchanged and intact.
+    the IR must be structurally unchanged and intact.  A wrapper of RegisterStack.push checks that no register
+    with a positive reservation count is put into the available list.  The same liveness oracle, run on the
+    UNALLOCATED input with "register" = tie group, tells whether the input can be allocated at all without
+    copies (known-finding classification, never a verdict of its own).
  2. reference-model differential monitor: xv/c19_regmachine.py executes the function in SSA mode BEFORE
     allocation and in register mode AFTER it, on random inputs, with ISA semantics and with an uninterpreted
     ("mix") semantics; return values and the ordered effect log (stores, observes, stream writes) must agree.
@@ -24,6 +27,7 @@ from xv.harness import shash
 ID = "C19"
 LEVEL = "exploration"
 RULE = ("a case = (generated function text, allocator entry point + register pool + allow_infinite); functions are "
+        "(8%) small func/arith/scf.for programs lowered by xDSL's own riscv passes (arith-lowered code), or "
         "single-block riscv_func (RV32/RV64 int, F/D float, Snitch SIMD, li 0 / mv-of-0 / get_register zero candidates "
         "for x0, loads/stores, observe sinks, test.allocatable in/out ops, vfmac/vfsum in/out, parallel_mov, "
         "pre-allocated a/t/s/f registers on arguments, results, interior values and loop-carried tuples, nested "
@@ -43,8 +47,8 @@ LEVEL_NOTE = ("trusts xv/c19_regmachine.py (own op table from the ISA manuals an
               "corner-case self-test at the start of every shard), the liveness oracle in this file, xv/irsan.py, "
               "the xDSL parser/verifier for building the inputs, and CPython")
 TECHNIQUE = ("invariant at a hook (independent backward liveness + interference over physical registers after "
-             "allocate_func) and reference-model differential monitor (own register machine: SSA mode before vs "
-             "register mode after allocation, ISA and uninterpreted semantics)")
+             "allocate_func; reservation invariant at RegisterStack.push) and reference-model differential monitor (own "
+             "register machine: SSA mode before vs register mode after allocation, ISA and uninterpreted semantics)")
 ENGINES = ["harness", "irsan", "regmachine"]
 ASSUMPTIONS = [
     "register-level meaning of riscv_scf.for / x86_scf.for / frep is the one of xDSL's own lowerings: block arguments, "
@@ -56,17 +60,27 @@ ASSUMPTIONS = [
     "xDSL's own x86-regalloc-verify-liveness contract check",
     "default pools of the pass entry points are the caller-saved sets t0-t6,a0-a7 / ft0-ft11,fa0-fa7 (RISC-V) and "
     "rax,rcx,rdx,rbx,rsi,rdi,r8-r11,r13-r15 / vector registers 0-31 (x86)",
-    "allocation failures (DiagnosticException incl. OutOfRegisters, or a crash of the allocator) are outside the "
-    "property and only counted",
+    "allocation failures reported as DiagnosticException (incl. OutOfRegisters) are outside the property and only "
+    "counted; a crash of the allocator (any other exception) is outside the property statement too but is reported "
+    "under its own mechanism key (exception type, innermost function, cause class)",
     "riscv_scf.while and riscv_scf.rof have no register-level lowering in xDSL: while is generated rarely and counted "
     "as incomplete allocation, rof is not generated",
 ]
-JOB_TIMEOUT = {"quick": 600, "thorough": 3600}
+JOB_TIMEOUT = {"quick": 1800, "thorough": 7200}
 
 N_SHARDS = {"quick": 32, "thorough": 64}
-CASES_PER_SHARD = {"quick": 110, "thorough": 2600}
+CASES_PER_SHARD = {"quick": 110, "thorough": 2000}
 
 K_TIED = "tied-values-simultaneously-live:allocator-reports-success"
+# ops that carry no RegisterAllocatedMemoryEffect in xDSL (own reading of the dialect definitions): a pre-assigned
+# register that only such ops name is invisible to RegisterAllocatableOperation.all_used_registers
+NO_REGISTER_EFFECTS = {"riscv.parallel_mov", "riscv_scf.for", "riscv_scf.yield", "rv32.get_register", "rv64.get_register",
+                       "riscv.get_float_register", "x86_scf.for", "x86_scf.yield", "x86.get_register",
+                       "x86.get_avx_register", "riscv_snitch.frep_yield", "riscv_func.return", "test.op",
+                       "riscv_func.func", "x86_func.func"}
+K_PUSH = "reserved-register-made-available-by-push"
+K_NOEFF = "preassigned-register-only-named-by-ops-without-register-effects:not-excluded-from-pool"
+K_SPILL = "spill-register-of-loop-carried-tuple-handed-out-again-while-reserved:interference"
 K_STALE = "loop-tied-tuples-repeat-a-value:stale-value-replaced-twice:detached-value-left-in-use"
 
 RV_DEFAULT_INT = ["t0", "t1", "t2", "t3", "t4", "t5", "t6", "a0", "a1", "a2", "a3", "a4", "a5", "a6", "a7"]
@@ -173,10 +187,11 @@ class Oracle:
         return self.rm.is_reg_type(v.type.name)
 
     def problem(self, kind, where, a, b=None, **kw):
-        d = {"kind": kind, "where": where, "value": vname(a), "reg": rname(a)}
+        d = {"kind": kind, "where": where, "value": vname(a), "reg": rname(a), "_a": a}
         if b is not None:
             d["other"] = vname(b)
             d["other_reg"] = rname(b)
+            d["_b"] = b
         d.update(kw)
         self.problems.append(d)
 
@@ -239,6 +254,11 @@ class Oracle:
                 for r in op.results:
                     if self.is_regval(r):
                         self.defcheck(r, live, n)
+                rs = [r for r in op.results if self.is_regval(r) and self.regof(r) is not None]
+                for i, r1 in enumerate(rs):
+                    for r2 in rs[i + 1:]:
+                        if self.regof(r1) == self.regof(r2) and r2 not in live and r1 not in live:
+                            self.problem("interference", n + " (two results of one op)", r1, r2)
                 for o, r in rm.tied_pairs(op):
                     self.stats["tied_pairs_checked"] = self.stats.get("tied_pairs_checked", 0) + 1
                     if o in live:
@@ -503,6 +523,36 @@ def const_zero(rm, v, depth=0):
     return False
 
 
+_PUSH_EVENTS = []
+_HOOKED = [False]
+
+
+def install_push_hook():
+    """Invariant at a hook: after RegisterStack.push returns, a register with a positive reservation count must
+    not be in the available list (reserved registers are respected)."""
+    import os
+    if _HOOKED[0]:
+        return
+    if os.environ.get("XDSL_VERIF") != "1":
+        raise RuntimeError("refusing to wrap RegisterStack.push without XDSL_VERIF=1")
+    from xdsl.backend.register_stack import RegisterStack
+    orig = RegisterStack.push
+
+    def push(self, reg):
+        try:
+            idx = reg.index.data
+            key = type(reg).register_pool_key()
+            before = idx in self.available_registers[key]
+        except Exception:  # noqa: BLE001
+            return orig(self, reg)
+        orig(self, reg)
+        _PUSH_EVENTS.append(0)
+        if not before and self.reserved_registers[key].get(idx, 0) > 0 and idx in self.available_registers[key]:
+            _PUSH_EVENTS.append((idx < 0, reg.register_name.data))
+    RegisterStack.push = push
+    _HOOKED[0] = True
+
+
 class Excluded(Exception):
     def __init__(self, why):
         super().__init__(why)
@@ -523,6 +573,8 @@ def run_case(case, C, S):
         C[k] = C.get(k, 0) + n
 
     cnt(f"cases_{arch}")
+    if "lowered-from-scf" in case.get("features", ()):
+        cnt("cases_lowered_from_scf")
     ctx = new_ctx()
     module = Parser(ctx, case["text"]).parse_module()
     module.verify()
@@ -531,6 +583,7 @@ def run_case(case, C, S):
         if not rm.supported(op.name):
             raise AssertionError("generator emitted an op the register machine does not know: " + op.name)
         S.setdefault("op_names", set()).add(op.name)
+    has_while = any(op.name == "riscv_scf.while" for op in walk_ops(func))
     sig_before, vals_before = structure(func)
     types_before = [(v.type.name, rname(v)) if rm.is_reg_type(v.type.name) else None for v in vals_before]
 
@@ -541,12 +594,11 @@ def run_case(case, C, S):
         if rm.is_reg_type(v.type.name):
             members.setdefault(id(find(v)), []).append(v)
     group_cell = {}
-    tie_conflict = False
     for root, vs in members.items():
         cells = {rm.vphys(v) for v in vs if rname(v)}
         cells.discard(None)
         if len(cells) > 1:
-            tie_conflict = True
+            cnt("inputs_tied_group_with_two_preassigned_registers")
         group_cell[root] = next(iter(cells)) if cells else (("g", root) if len(vs) > 1 else None)
 
     def regof_in(v):
@@ -559,6 +611,12 @@ def run_case(case, C, S):
     o_in = Oracle(rm, regof_in, istats)
     in_problems = o_in.run(func)
     repeats = repeated_tied_value(rm, func)
+    loop_tuple_positions = set()
+    for op in walk_ops(func):
+        if op.name in rm.RV_FOR or op.name in rm.X86_FOR or op.name in rm.FREP:
+            for t in loop_tuples(rm, op):
+                for q in t:
+                    loop_tuple_positions.add(index_of(vals_before, q))
     if repeats:
         cnt(f"inputs_loop_repeats_a_tied_value_{arch}")
     if o_in.precondition:
@@ -592,6 +650,8 @@ def run_case(case, C, S):
     erng = random.Random(case["exec_seed"])
     vecs = input_vectors(erng, case, 3)
     runs = [(v, "isa") for v in vecs] + [(vecs[0], "mix")]
+    if has_while:
+        runs = runs[:1]  # never judged (riscv_scf.while is not allocatable); its condition is not exact under "mix"
     before = []
     try:
         for v, sem in runs:
@@ -606,17 +666,53 @@ def run_case(case, C, S):
 
     # ---- the real allocator
     regs, pool_cells, allow_inf = build_pool(arch, acfg)
+    install_push_hook()
+    del _PUSH_EVENTS[:]
+    hook_violation = None
+
+    def push_hook_result():
+        pushes = sum(1 for e in _PUSH_EVENTS if e == 0)
+        cnt("hook_register_stack_push_calls", pushes)
+        bad = [e for e in _PUSH_EVENTS if e != 0]
+        if not bad:
+            return None
+        spill = all(b[0] for b in bad)
+        cnt("hook_reserved_register_made_available_" + ("spill" if spill else "physical"))
+        return {"key": f"{arch}:{K_PUSH}:" + ("spill-register" if spill else "physical-register"),
+                "summary": f"RegisterStack.push put {bad[0][1]} into the available list while its reservation count is positive ({len(bad)}x in this allocation)",
+                "witness": {"text": case["text"], "alloc": acfg, "arch": arch, "registers": sorted({b[1] for b in bad})[:8],
+                            "replay_job": {"cases": [case]}}}
     try:
-        allocate(arch, acfg, ctx, module, func, regs)
+        try:
+            allocate(arch, acfg, ctx, module, func, regs)
+        finally:
+            hook_violation = push_hook_result()
     except DiagnosticException as e:
         cnt(f"alloc_failed_{arch}:{type(e).__name__}")
         if uncolorable:
             cnt("uncolourable_input_rejected_by_allocator")
-        return None, None
+        return hook_violation, None
     except (AssertionError, NotImplementedError, KeyError, ValueError, IndexError, TypeError, AttributeError) as e:
+        # not a reported failure but a crash of the allocator: outside the property statement (no successful
+        # allocation to judge), reported under its own mechanism key (exception type + innermost function + cause class)
         cnt(f"alloc_crashed_{arch}:{type(e).__name__}")
-        S.setdefault("alloc_crash_sites", set()).add(f"{arch}:{type(e).__name__}:{crash_site(e)}")
-        return None, None
+        site = f"{type(e).__name__}:{crash_site(e)}"
+        S.setdefault("alloc_crash_sites", set()).add(f"{arch}:{site}")
+        has_loop = any(op.name in rm.RV_FOR or op.name in rm.X86_FOR or op.name in rm.FREP for op in walk_ops(the_func(module)))
+        if hook_violation is not None:
+            return hook_violation, None  # direct evidence of the mechanism: a reserved register was made available
+        if uncolorable:
+            cause = "tie-unsatisfiable-input"
+        elif repeats:
+            cause = "loop-repeats-a-tied-value"
+        elif allow_inf and has_loop:
+            cause = "spill-registers-with-loops"
+        else:
+            cause = "other-input"
+        return {"key": f"{arch}:allocator-crash:{site}:{cause}",
+                "summary": f"{arch} allocator crashed with {type(e).__name__}: {str(e)[:160]}",
+                "witness": {"text": case["text"], "alloc": acfg, "arch": arch, "exception": repr(e)[:300],
+                            "replay_job": {"cases": [case]}}}, None
     cnt(f"alloc_succeeded_{arch}")
     cnt(f"alloc_succeeded_entry_{acfg['entry']}")
     func = the_func(module)
@@ -743,6 +839,9 @@ def run_case(case, C, S):
             # structure is unchanged, so SSA semantics after allocation must be identical as well
             try:
                 got, _ = execute(rm, case, func, "ssa", runs[0][0], "isa", zero_rule=False)
+                cnt("ssa_after_allocation_compared")
+                if got != before[0]:
+                    prob("ssa-semantics-changed-by-allocation", ssa_before=brief(before[0]), ssa_after=brief(got))
             except rm.MachineError as e:
                 prob("ssa-execution-fails-after-allocation", detail=e.kind)
 
@@ -750,7 +849,7 @@ def run_case(case, C, S):
         if uncolorable:
             cnt("uncolourable_input_but_no_problem_found")
         key = shash((case["text"], sorted(acfg.items(), key=str)))
-        return None, (key if (max_live >= 4 and reuse) else None)
+        return hook_violation, (key if (max_live >= 4 and reuse) else None)
 
     # ---- one violation per case, keyed by mechanism
     kinds = [p["kind"] for p in problems]
@@ -770,19 +869,57 @@ def run_case(case, C, S):
         pr = ["ir-broken-after-allocation", "structure-changed", "value-left-unallocated", "preassigned-register-changed",
               "zero-register-holds-nonconstant", "tie-broken", "interference", "spill-register-without-allow-infinite",
               "reserved-stream-register-used", "register-outside-offered-pool", "verify-fails-after-allocation",
-              "exec-mismatch", "ssa-execution-fails-after-allocation", "use-before-definition"]
+              "exec-mismatch", "ssa-semantics-changed-by-allocation", "ssa-execution-fails-after-allocation",
+              "use-before-definition"]
         first = sorted(problems, key=lambda p: pr.index(p["kind"]) if p["kind"] in pr else 99)[0]
         key = f"{arch}:{first['kind']}"
         if first["kind"] == "interference":
             a, b = first.get("reg"), first.get("other_reg")
             where = first["where"]
-            ctxk = "loop" if "(" in where else "straight-line"
-            key += f":{ctxk}" + (":aliased-register-names" if a != b else "")
-        summary = f"{arch} {acfg['entry']} allocation: {first}"
-    witness = {"text": case["text"], "alloc": acfg, "arch": arch, "problems": problems[:6],
+            pre = []
+            for q in (first.get("_a"), first.get("_b")):
+                i = index_of(vals_after, q)
+                if i >= 0 and types_before[i] is not None and types_before[i][1]:
+                    pre.append(owner_kind(q))
+            cell = rm.vphys(first["_a"])
+            loop_roots = {id(find(vals_before[i])) for i in loop_tuple_positions if i >= 0}
+            in_loop_tuple = any(index_of(vals_after, q) >= 0 and id(find(vals_before[index_of(vals_after, q)])) in loop_roots
+                                for q in (first.get("_a"), first.get("_b")))
+            if len(pre) == 1:
+                # a pre-assigned register was handed to another value that is live at the same time
+                pv = next(q for q in (first.get("_a"), first.get("_b"))
+                          if types_before[index_of(vals_after, q)][1])
+                touching = ([pv.op.name] if getattr(pv, "op", None) is not None else [owner_kind(pv)[len("block-argument-of:"):]])
+                touching += [u.operation.name for u in pv.uses]
+                if all(t in NO_REGISTER_EFFECTS for t in touching):
+                    key = f"{arch}:{K_NOEFF}"
+                else:
+                    key = f"{arch}:preassigned-register-given-to-simultaneously-live-value:{pre[0]}"
+            elif cell is not None and cell[0].endswith(".inf") and in_loop_tuple:
+                # the (reserved) spill register of a loop-carried tuple was handed out again while the tuple lives
+                key = f"{arch}:{K_SPILL}"
+            else:
+                ctxk = "loop" if "(" in where else "straight-line"
+                key += f":{ctxk}" + (":aliased-register-names" if a != b else "")
+        summary = f"{arch} {acfg['entry']} allocation: {strip([first])[0]}"
+    witness = {"text": case["text"], "alloc": acfg, "arch": arch, "problems": strip(problems[:6]),
                "allocated": str(module)[:6000], "features": case.get("features"),
                "replay_job": {"cases": [case]}}
     return {"key": key, "summary": summary[:500], "witness": witness}, None
+
+
+def owner_kind(v):
+    """What carries the value: defining op name, or 'block-argument-of:<parent op>'."""
+    op = getattr(v, "op", None)
+    if op is not None:
+        return op.name
+    blk = getattr(v, "block", None)
+    parent = blk.parent_op() if blk is not None else None
+    return "block-argument-of:" + (parent.name if parent is not None else "?")
+
+
+def strip(problems):
+    return [{k: v for k, v in p.items() if not k.startswith("_")} for p in problems]
 
 
 def index_of(seq, v):
@@ -816,9 +953,41 @@ def crash_site(e):
 
 
 # ------------------------------------------------------------------------------------------------ worker
+LOWERING = ["convert-func-to-riscv-func", "convert-scf-to-riscv-scf", "convert-arith-to-riscv", "reconcile-unrealized-casts"]
+
+
+def lower_to_riscv(source):
+    """func/arith/scf text -> riscv_func text through xDSL's own lowering passes (input preparation only)."""
+    import io
+    from xv.corpus import new_ctx
+    from xdsl.parser import Parser
+    from xdsl.printer import Printer
+    from xdsl.transforms import get_all_passes
+    ctx = new_ctx()
+    m = Parser(ctx, source).parse_module()
+    m.verify()
+    passes = get_all_passes()
+    for p in LOWERING:
+        passes[p]()().apply(ctx, m)
+    m.verify()
+    s = io.StringIO()
+    Printer(stream=s).print_op(m)
+    return s.getvalue()
+
+
 def make_case(rng):
     from xv import c19_gen as gen
-    arch = "riscv" if rng.random() < 0.68 else "x86"
+    q = rng.random()
+    if q < 0.08:
+        case = gen.gen_scf(rng)
+        try:
+            case["text"] = lower_to_riscv(case["source"])
+        except Exception as e:  # noqa: BLE001 - input preparation by xDSL's own lowering passes failed: not judged
+            return {"skip": "excluded_lowering_failed:" + type(e).__name__, "arch": "riscv", "text": case["source"]}
+        case["alloc"] = alloc_config(rng, "riscv", case["cfg"]["pressure"])
+        case["exec_seed"] = rng.getrandbits(32)
+        return case
+    arch = "riscv" if q < 0.7 else "x86"
     case = gen.gen_riscv(rng) if arch == "riscv" else gen.gen_x86(rng)
     case["alloc"] = alloc_config(rng, arch, case["cfg"]["pressure"])
     case["exec_seed"] = rng.getrandbits(32)
@@ -844,6 +1013,9 @@ def work(job):
             rng = random.Random(f"C19/{job['seed']}/{job['shard']}/{i}")
             case = make_case(rng)
         journal(case["text"])
+        if "skip" in case:
+            C[case["skip"]] = C.get(case["skip"], 0) + 1
+            continue
         for f in case.get("features", ()):
             S.setdefault("features_" + case["arch"], set()).add(f)
         v, nt = run_case(case, C, S)
@@ -882,6 +1054,7 @@ def finish(agg, tier):
     want("zero_register_assignments_checked", 200)
     want("preassigned_values_checked", 1000)
     want("spill_register_assignments", 50)
+    want("cases_lowered_from_scf", 100)
     big = c.get("max_live_bucket_8-15", 0) + c.get("max_live_bucket_16-31", 0) + c.get("max_live_bucket_ge32", 0)
     if big < 100 * need:
         reasons.append(f"allocations with >= 8 simultaneously live values: {big} < {100 * need}")
